@@ -337,5 +337,5 @@ pub fn property(tier: Tier) -> Property {
         case_timeout_s: tier.pick(120, 600),
         exhaustive: false,
     }));
-    Property { id: "C09", stages, assumptions: vec!["'represented' for variants is decided by construction (alpha-variant, renaming, replacement of a subterm by a term it was united with)".into()] }
+    Property { id: "C09", scale: tier.pick(5, 2), stages, assumptions: vec!["'represented' for variants is decided by construction (alpha-variant, renaming, replacement of a subterm by a term it was united with)".into()] }
 }
